@@ -1,0 +1,100 @@
+//go:build verif
+
+package types
+
+// Contracts for the deductive checker in /verif (comment-only; compiled only with -tags verif).
+// C03: the Ethereum transaction a message stands for, its recorded sender and the signers derived from it.
+// Lib specs: /verif/specs/c03/60_sig.spec.
+
+/*@
+alias Any github.com/cosmos/cosmos-sdk/codec/types.Any
+alias TxData github.com/haqq-network/haqq/x/evm/types.TxData
+alias MsgEthTx github.com/haqq-network/haqq/x/evm/types.MsgEthereumTx
+
+// codec leaf (reads the cached value of a protobuf Any): deterministic in its argument (same assumption as C07)
+uf unpack_ok(a *Any) bool
+uf unpack_td(a *Any) TxData
+func UnpackTxData
+    trusted
+    ensures ok: (result.1 == nil) == unpack_ok(any)
+    ensures value: result.1 == nil ==> result.0 == unpack_td(any) && result.0 != nil
+
+// TxData interface: deterministic getters of immutable tx data (C18 proves the field-by-field correspondence of
+// AsEthereumData for the three implementations)
+func (TxData).AsEthereumData
+    params td
+    pure as txd_ethdata
+func (TxData).GetNonce
+    params td
+    pure as txd_nonce
+// chain id stored in (typed tx) / derived from the signature of (legacy tx) the tx data: nil or a big integer
+uf txd_has_chainid(td TxData) bool
+uf txd_chainid(td TxData) int
+func (TxData).GetChainID
+    params td
+    ensures nilness: (result != nil) == txd_has_chainid(td)
+    ensures value: result != nil ==> *result == txd_chainid(td)
+
+// the Ethereum transaction a message stands for: a function of the packed tx data only (nil if it cannot be unpacked)
+specfunc MsgTx(d *Any) *EthTx = ite(unpack_ok(d), eth_newtx(txd_ethdata(unpack_td(d))), nil)
+
+func (MsgEthereumTx).AsTransaction
+    ensures tx: result == MsgTx(msg.Data)
+    ensures nonnil: unpack_ok(msg.Data) ==> result != nil
+
+// the account address later decorators use: the bytes of the address whose hex form is recorded in From
+func (*MsgEthereumTx).GetFrom
+    requires nonnil: msg != nil
+    ensures empty: msg.From == "" ==> len(result) == 0
+    ensures value: msg.From != "" ==> result == addr_bytes(hex_addr(msg.From))
+
+// GetSender recovers the sender with the latest signer for the GIVEN chain id and records it in From;
+// on failure the message is untouched
+func (*MsgEthereumTx).GetSender
+    requires nonnil: msg != nil
+    requires wf: unpack_ok(msg.Data)
+    let signer = latest_signer(chainID != nil, ite(chainID != nil, *chainID, 0))
+    modifies *msg
+    ensures ok: (result.1 == nil) == sender_ok(signer, MsgTx(msg.Data))
+    ensures sender: result.1 == nil ==> result.0 == sender_of(signer, MsgTx(msg.Data)) && msg.From == addr_hex(result.0)
+    ensures failed: result.1 != nil ==> *msg == old(*msg)
+    ensures frame: msg.Data == old(msg.Data) && msg.Hash == old(msg.Hash) && msg.Size_ == old(msg.Size_)
+
+// GetSigners: exactly one signer, the sender recovered with the latest signer for the chain id CARRIED BY THE TX ITSELF
+// (panics when the data cannot be unpacked or the recovery fails)
+func (*MsgEthereumTx).GetSigners
+    requires nonnil: msg != nil
+    maypanic
+    let td = unpack_td(msg.Data)
+    let signer = latest_signer(txd_has_chainid(td), ite(txd_has_chainid(td), txd_chainid(td), 0))
+    modifies *msg
+    ensures one: len(result) == 1
+    ensures signer: unpack_ok(msg.Data) && sender_ok(signer, MsgTx(msg.Data))
+            && result[0] == addr_bytes(sender_of(signer, MsgTx(msg.Data)))
+    ensures from: msg.From == addr_hex(sender_of(signer, MsgTx(msg.Data)))
+    ensures frame: msg.Data == old(msg.Data) && msg.Hash == old(msg.Hash) && msg.Size_ == old(msg.Size_)
+@*/
+
+/*@
+// ------------------------------------------------------------------ what EthValidateBasicDecorator reads from the tx data
+func (TxData).GetGas
+    params td
+    pure as txd_gas
+func (TxData).GetTo
+    params td
+    pure as txd_to
+func (TxData).TxType
+    params td
+    pure as txd_type
+// txd_wf: what TxData.Validate() guarantees (gas price / fee cap present ...), established by baseapp's
+// validateBasicTxMsgs before the ante handler runs; Fee() = fee cap x gas limit is proved in C07
+uf txd_wf(td TxData) bool
+uf txd_fee(td TxData) int
+func (TxData).Fee
+    params td
+    requires nonnil: td != nil
+    requires wf: txd_wf(td)
+    ensures value: result != nil && fresh(result) && *result == txd_fee(td)
+func (MsgEthereumTx).GetGas
+    ensures value: result == ite(unpack_ok(msg.Data), txd_gas(unpack_td(msg.Data)), 0)
+@*/
